@@ -719,7 +719,7 @@ func ruleKeyMirror(c *Ctx, r *Report) {
 					default:
 						continue
 					}
-					_, f, _, isField := fieldLoad(resolvePhis(ci.Common().Args[i], rawAt[ci]))
+					_, f, _, isField := fieldLoad(pathSource(ci.Common().Args[i], rawAt[ci], w.Reached, ci, 0))
 					if !isField {
 						okAll = false
 						desc = append(desc, pn+"=<not a key field>")
@@ -798,43 +798,91 @@ func ruleKeySchedule13(c *Ctx, r *Report) {
 		"internal/handshake.deriveResumptionMasterSecret|0":    "res master",
 	}
 	seen := map[string]int{}
+	// labelsAt: the label argument of a derivation, as the constants it can be, each with the
+	// function that names the constant (a label handed down through a helper of the package
+	// is followed to every call of that helper)
+	type namedLabel struct {
+		by  *ssa.Function
+		lbl string
+		ok  bool
+	}
+	var labelsAt func(fn *ssa.Function, v ssa.Value, d int) []namedLabel
+	labelsAt = func(fn *ssa.Function, v ssa.Value, d int) []namedLabel {
+		if p, isP := v.(*ssa.Parameter); isP && d < 3 && p.Parent() == fn {
+			if sites, closed := c.staticCallers(fn); closed && len(sites) > 0 {
+				var out []namedLabel
+				for _, cs := range sites {
+					if pi := paramIndex(p); pi >= 0 && pi < len(cs.Call.Common().Args) {
+						out = append(out, labelsAt(cs.Fn, cs.Call.Common().Args[pi], d+1)...)
+					} else {
+						out = append(out, namedLabel{by: fn})
+					}
+				}
+				return out
+			}
+		}
+		lbl, isC := constString(v)
+		return []namedLabel{{fn, lbl, isC}}
+	}
 	for _, s := range c.CallsToName("internal/handshake.deriveTrafficSecret") {
 		call := s.Call.(*ssa.Call)
-		lbl, _ := constString(call.Call.Args[2])
-		k := fmt.Sprintf("%s|%d", short(s.Fn), seen[short(s.Fn)])
-		seen[short(s.Fn)]++
-		w, ok := want[k]
-		r.Sites++
-		if !ok {
-			r.Unk("hkdf-label-use", k, c.ipos(call), "a traffic-secret derivation site without an entry in the label table")
-			continue
+		for _, nl := range labelsAt(s.Fn, call.Call.Args[2], 0) {
+			lbl := nl.lbl
+			k := fmt.Sprintf("%s|%d", short(nl.by), seen[short(nl.by)])
+			seen[short(nl.by)]++
+			w, ok := want[k]
+			r.Sites++
+			if !ok || !nl.ok {
+				r.Unk("hkdf-label-use", k, c.ipos(call), "a traffic-secret derivation site without an entry in the label table")
+				continue
+			}
+			r.Check(lbl == w, "hkdf-label-use", k, c.ipos(call), "label "+fmt.Sprintf("%q", lbl), fmt.Sprintf("derivation uses label %q, RFC 8446 7.1 prescribes %q here", lbl, w))
 		}
-		r.Check(lbl == w, "hkdf-label-use", k, c.ipos(call), "label "+fmt.Sprintf("%q", lbl), fmt.Sprintf("derivation uses label %q, RFC 8446 7.1 prescribes %q here", lbl, w))
 	}
 	r.Floor("hkdf-label-use", len(seen), 4)
-	// client/server assignment of the derived secrets
-	for _, name := range []string{"internal/handshake.deriveHandshakeKeySchedule", "internal/handshake.deriveApplicationTrafficSecrets"} {
-		fn := c.need(r, "hkdf-label-use", name)
-		if fn == nil {
-			continue
-		}
-		for _, al := range allocsOf(fn, "internal/state.TrafficSecrets") {
-			f := litFields(al)
-			for side, idx := range map[string]string{"Client": "c ", "Server": "s "} {
-				v := f[side]
-				good := false
-				for _, l := range c.Origins(v, 0) {
-					if ex, ok := l.(*ssa.Extract); ok {
-						if call, ok := ex.Tuple.(*ssa.Call); ok && calleeName(&call.Call) == "internal/handshake.deriveTrafficSecret" {
-							lbl, _ := constString(call.Call.Args[2])
-							good = strings.HasPrefix(lbl, idx)
+	// client/server assignment of the derived secrets: whatever is stored as the Client (Server)
+	// secret of a TrafficSecrets value in this package is a derivation with a "c " ("s ") label
+	nSides := 0
+	for side, idx := range map[string]string{"Client": "c ", "Server": "s "} {
+		for _, st := range c.StoresTo("internal/state.TrafficSecrets", side) {
+			if st.Fn.Pkg == nil || shortPath(st.Fn.Pkg.Pkg.Path()) != "internal/handshake" {
+				continue
+			}
+			good, derived := false, false
+			for _, l := range c.Origins(st.Val, 0) {
+				if ex, ok := l.(*ssa.Extract); ok {
+					if call, ok := ex.Tuple.(*ssa.Call); ok && calleeName(&call.Call) == "internal/handshake.deriveTrafficSecret" {
+						derived = true
+					}
+				}
+			}
+			if !derived {
+				// a copy of a secret kept elsewhere: a field named for one side goes to that side
+				other := map[string]string{"Client": "Server", "Server": "Client"}[side]
+				for _, l := range c.Origins(st.Val, 0) {
+					if _, f, _, ok := fieldLoad(l); ok && strings.HasPrefix(f, other) {
+						r.Bad("hkdf-label-use", short(st.Fn)+":"+side, c.ipos(st.Instr), "the "+side+" traffic secret is a copy of "+f)
+					}
+				}
+				continue
+			}
+			nSides++
+			for _, l := range c.Origins(st.Val, 0) {
+				if ex, ok := l.(*ssa.Extract); ok {
+					if call, ok := ex.Tuple.(*ssa.Call); ok && calleeName(&call.Call) == "internal/handshake.deriveTrafficSecret" {
+						good = true
+						for _, nl := range labelsAt(st.Fn, call.Call.Args[2], 0) {
+							if !nl.ok || !strings.HasPrefix(nl.lbl, idx) {
+								good = false
+							}
 						}
 					}
 				}
-				r.Check(good, "hkdf-label-use", short(fn)+":"+side, c.ipos(al), side+" secret comes from the "+idx+"* label", "the "+side+" traffic secret is derived with the other side's label")
 			}
+			r.Check(good, "hkdf-label-use", short(st.Fn)+":"+side, c.ipos(st.Instr), side+" secret comes from the "+idx+"* label", "the "+side+" traffic secret is derived with the other side's label")
 		}
 	}
+	r.Floor("hkdf-label-use", nSides, 2)
 	for fnName, lbl := range map[string]string{"internal/handshake.finishedKey": "finished", "internal/handshake.deriveNextApplicationTrafficSecret": "traffic upd"} {
 		if fn := c.need(r, "hkdf-label-use", fnName); fn != nil {
 			for _, ci := range callsIn(fn, nameIs(ks+".HkdfExpandLabel")) {
@@ -1030,6 +1078,104 @@ func (c *Ctx) constStringByName(rel, name string) (string, bool) {
 
 func constantInt64(k *types.Const) (int64, bool) {
 	return constant.Int64Val(k.Val())
+}
+
+// pathSource names what a value is on one explored path whose reached instructions form a line
+// (every branch decided by the walk's assumption): phis by the path's resolutions, and a load
+// of a field of a private local struct - directly or after whole-value copies between such
+// structs - by the value of the last reached store to that field before the load. Anything it
+// cannot name for certain is returned as it is.
+func pathSource(v ssa.Value, raw map[*ssa.Phi]ssa.Value, reached map[ssa.Instruction]bool, at ssa.Instruction, d int) ssa.Value {
+	v = resolvePhis(v, raw)
+	if d > 8 {
+		return v
+	}
+	// field idx of the struct value sv as it is at instruction `at`
+	var fieldOf func(sv ssa.Value, idx int, at ssa.Instruction, d int) ssa.Value
+	lastStore := func(al *ssa.Alloc, idx int, at ssa.Instruction) *ssa.Store {
+		var cands []*ssa.Store
+		for _, ref := range *al.Referrers() {
+			switch x := ref.(type) {
+			case *ssa.Store:
+				if x.Addr == ssa.Value(al) && reached[x] && instrReaches(x, at) {
+					cands = append(cands, x)
+				}
+			case *ssa.FieldAddr:
+				if x.Field != idx || x.Referrers() == nil {
+					continue
+				}
+				for _, r2 := range *x.Referrers() {
+					if st, ok := r2.(*ssa.Store); ok && st.Addr == ssa.Value(x) && reached[st] && instrReaches(st, at) {
+						cands = append(cands, st)
+					}
+				}
+			}
+		}
+		var last *ssa.Store
+		for _, s1 := range cands {
+			isLast := true
+			for _, s2 := range cands {
+				if s1 == s2 {
+					continue
+				}
+				if !instrReaches(s2, s1) || instrReaches(s1, s2) {
+					isLast = false
+				}
+			}
+			if isLast {
+				last = s1
+			}
+		}
+		return last
+	}
+	fieldOf = func(sv ssa.Value, idx int, at ssa.Instruction, d int) ssa.Value {
+		if d > 8 {
+			return nil
+		}
+		sv = resolvePhis(sv, raw)
+		ld, ok := sv.(*ssa.UnOp)
+		if !ok || ld.Op != token.MUL {
+			return nil
+		}
+		al, ok := ld.X.(*ssa.Alloc)
+		if !ok || !privateStruct(al) {
+			return nil
+		}
+		st := lastStore(al, idx, ld)
+		if st == nil {
+			return nil
+		}
+		if st.Addr == ssa.Value(al) {
+			return fieldOf(st.Val, idx, st, d+1)
+		}
+		return pathSource(st.Val, raw, reached, st, d+1)
+	}
+	switch x := v.(type) {
+	case *ssa.Field:
+		if r := fieldOf(x.X, x.Field, at, d+1); r != nil {
+			return r
+		}
+	case *ssa.UnOp:
+		if x.Op != token.MUL {
+			break
+		}
+		if fa, ok := x.X.(*ssa.FieldAddr); ok {
+			if al, isAl := fa.X.(*ssa.Alloc); isAl && privateStruct(al) {
+				st := lastStore(al, fa.Field, x)
+				if st == nil {
+					break
+				}
+				if st.Addr == ssa.Value(al) {
+					if r := fieldOf(st.Val, fa.Field, st, d+1); r != nil {
+						return r
+					}
+					break
+				}
+				return pathSource(st.Val, raw, reached, st, d+1)
+			}
+		}
+	}
+	return v
 }
 
 // resolvePhis follows phis along the resolutions of one explored path.
